@@ -511,6 +511,20 @@ func c14Run(c *fw.Ctx) error {
 			run(c14Case{Format: "uri", Dir: "all", Data: s}, int64(len(s))*1e6+int64(i), c14ByteClass(s))
 		}
 	}
+	if c.Thorough() {
+		// every 3-byte string: the whole input space of one base64 block (generated on the fly, 2^24 cases)
+		for a := 0; a < 256; a++ {
+			for b := 0; b < 256; b++ {
+				for d := 0; d < 256; d++ {
+					s := string([]byte{byte(a), byte(b), byte(d)})
+					run(c14Case{Format: "base64", Dir: "all", Data: s}, 3e6+int64(a<<16|b<<8|d), c14ByteClass(s))
+					if utf8.ValidString(s) && a != 0 && b != 0 && d != 0 {
+						run(c14Case{Format: "uri", Dir: "all", Data: s}, 3e6+int64(a<<16|b<<8|d), c14ByteClass(s))
+					}
+				}
+			}
+		}
+	}
 	// properties
 	pal := []string{"a", "1", " ", "=", ":", "#", "!", "\\", "\t", "\n", "é", "€", "b"}
 	pstr := c14Strings(pal, 2)
@@ -604,7 +618,7 @@ func c14Run(c *fw.Ctx) error {
 			return err
 		}
 	}
-	c.Res.Bound = "base64/uri: every byte string of length <= 2 (quick: one third of the pairs) and length 3 over a 24-byte core; properties: keys x values over all strings of length <= 2 over 13 characters (separators, comment signs, backslash, blanks, line feed, non-ASCII), 3 directions; csv/tsv: fields of length <= 2 over 10 characters in 4 table shapes, 3 separators; lua: strings of length <= 2 over 13 atoms, 12 hazardous keys, U(3), quoted and unquoted keys; xml: element trees with attributes/text/repeated children over hazardous text; toml: mini-grammar documents; to_json/from_json and to_yaml/from_yaml on U(3)"
+	c.Res.Bound = "base64/uri: every byte string of length <= 2 (quick: one third of the pairs) and length 3 over a 24-byte core (thorough: every 3-byte string, 2^24); properties: keys x values over all strings of length <= 2 over 13 characters (separators, comment signs, backslash, blanks, line feed, non-ASCII), 3 directions; csv/tsv: fields of length <= 2 over 10 characters in 4 table shapes, 3 separators; lua: strings of length <= 2 over 13 atoms, 12 hazardous keys, U(3), quoted and unquoted keys; xml: element trees with attributes/text/repeated children over hazardous text; toml: mini-grammar documents; to_json/from_json and to_yaml/from_yaml on U(3)"
 	return nil
 }
 
